@@ -6,6 +6,9 @@
            connection, every byte the connection saw.  kind: 0 = Put only when the connection
            does not live on (Server.handle, listener.handle since f83061f), 1 = Put always (the
            old listener.handle, emulated by the engine to validate the model of the defect).
+   CUdp    a schedule of datagrams, reads and closes executed on the real servePacket loop and
+           packetConn (scripted net.PacketConn), arrays identified by base pointer, replayed on
+           model/UdpPool.v.
    CStress concurrent runs with self-identifying streams: the number of connections that saw a
            foreign byte must be what the model predicts for the life cycle read from gen/Shape.v
            (zero when that life cycle is a good discipline).
@@ -16,7 +19,7 @@ From Coq Require Import List ZArith NArith Bool Arith String.
 From Coq.Strings Require Import Byte.
 From L4 Require Import Hex.
 From L4.gen Require Import Shape Access.
-From L4.model Require Import Pool Discipline.
+From L4.model Require Import Pool Discipline UdpPool.
 Import ListNotations.
 
 Inductive zev :=
@@ -46,8 +49,29 @@ Definition ev_of (e : zev) : pevent :=
   | ZEnd c => PEnd (zn c)
   end.
 
+Inductive zuev :=
+| ZURecv (cl : Z) (data : list (Z * Z)) (b : Z)
+| ZUDispatch
+| ZUSend
+| ZURead (a m : Z)
+| ZUIdle (a : Z)
+| ZUClose (a : Z)
+| ZUForget (a : Z).
+
+Definition uev_of (e : zuev) : uevent :=
+  match e with
+  | ZURecv cl d b => URecv (zn cl) (rle d) (zn b)
+  | ZUDispatch => UDispatch
+  | ZUSend => USend
+  | ZURead a m => URead (zn a) (zn m)
+  | ZUIdle a => UIdle (zn a)
+  | ZUClose a => UClose (zn a)
+  | ZUForget a => UForget (zn a)
+  end.
+
 Inductive c08case :=
 | CPool (kind : Z) (evs : list zev) (seen : list (Z * list (Z * Z)))
+| CUdp (evs : list zuev) (seen : list (Z * list (Z * Z)))
 | CStress (life : string) (procs nconn checked bad : Z)
 | CLoc (loc : string) (ok : bool)
 | CRace (loc : string).
@@ -74,7 +98,14 @@ Definition check (c : c08case) : bool :=
       let d := if Z.eqb kind 1 then unconditional_put_disc else clean_disc in
       let s := prun d pinit (map ev_of evs) in
       forallb (fun p => beq (got_of s (zn (fst p))) (rle (snd p))) seen
+  | CUdp evs seen =>
+      (* the real servePacket / packetConn driven datagram by datagram: the arrays the real pool
+         handed out must be arrays the model considers free (or new), and every association must
+         have read what the model says *)
+      let s := urun udp_disc uinit (map uev_of evs) in
+      negb (ubadget s) && forallb (fun p => beq (ugot s (zn (fst p))) (rle (snd p))) seen
   | CStress life procs nconn checked bad =>
+      if String.eqb life "udp" then Z.eqb bad 0 else
       match life_disc life with
       | Some d => if good_discb d then Z.eqb bad 0 else true
       | None => false
